@@ -296,6 +296,18 @@ def run(ctx: Ctx) -> None:
     from .common import NCPU
     with mp.get_context("fork").Pool(NCPU, initializer=_init) as pool:
         res = pool.map(run_batch, tasks, chunksize=1)
+    # "the plaintext returned is exactly the one that was encrypted" with zip=DEF around the decompression limit: an error is
+    # fine (C17 decides which), a shorter plaintext is not
+    from . import c17
+    from .common import pmap
+    zc = [(cls, c17.CAP + k, enc, ser, "raw", ctx.seed) for cls in ("constant", "periodic") for k in (1, 7, 60, 150, 200, 258, 259)
+          for enc, ser in (("A128GCM", "compact"), ("A128CBC-HS256", "flattened"))]
+    for a_, what in pmap(c17.case, zc, chunksize=2):
+        ctx.evaluations += 1
+        if what and what.startswith("over-limit-returned"):
+            ctx.violation(f"jwe:zip plaintext of {a_[1]} octets ({a_[0]}) {a_[2]} {a_[3]} -> a shorter plaintext was returned without error",
+                          {"class": a_[0], "length": a_[1], "enc": a_[2], "ser": a_[3], "what": what})
+    _init()
     nok = 0
     for ((a, e), scs, *_), (findings, n, ok) in zip(tasks, res):
         ctx.evaluations += n
